@@ -350,6 +350,105 @@ func checkC15(c *Ctx) {
 	// ---- C15.11 the encoder compresses names only as deeply as the decoder follows: every compression pointer the
 	// encoder emits is written under a bound on the length of the pointer chain, and that bound is within the decoder's
 	// compressionPointerLimit
+	// ---- C15.12 the encrypted exchange: a Noise cipher state counts its messages (the nonce); the responder answers every
+	// request at nonce 0, so a request decodes only with the cipher states of the handshake made for it. They live for
+	// one exchange: returned and used, never kept in a field, a map or a package variable and handed out again.
+	r.Rule("C15.12", "Noise cipher states are per exchange: never stored in a field, map or global", 1)
+	{
+		nFn, nBad := 0, 0
+		for _, f := range c.funcsOfPkgs("pkg/registrars/dns-registrar/requester", "pkg/registrars/dns-registrar/responder", "pkg/registrars/dns-registrar/encryption") {
+			for _, ff := range withAnon(f) {
+				uses := false
+				eachInstr(ff, func(in ssa.Instruction) {
+					if v, ok := in.(ssa.Value); ok && strings.HasSuffix(typeShort(v.Type()), "noise.CipherState") {
+						uses = true
+					}
+					var val, addr ssa.Value
+					switch x := in.(type) {
+					case *ssa.Store:
+						val, addr = x.Val, x.Addr
+					case *ssa.MapUpdate:
+						val, addr = x.Value, x.Map
+					default:
+						return
+					}
+					if !strings.HasSuffix(typeShort(val.Type()), "noise.CipherState") {
+						return
+					}
+					if al, isA := addr.(*ssa.Alloc); isA && !al.Heap {
+						return
+					}
+					if al, isA := addr.(*ssa.Alloc); isA && al.Heap {
+						// a captured local: fine as long as it is a local of this call
+						return
+					}
+					root := addr
+					for i := 0; i < 6; i++ {
+						if fa, ok := root.(*ssa.FieldAddr); ok {
+							root = fa.X
+							continue
+						}
+						break
+					}
+					if _, isA := root.(*ssa.Alloc); isA {
+						return // a field of a local of this call
+					}
+					nBad++
+					r.Bad("C15.12", fnName(ff)+": stores a Noise cipher state into "+firstN(pathOf(addr), 50), in.Pos(), fnName(ff),
+						"a cipher state is kept beyond its exchange: when it is handed out again its nonce has moved on, the peer (which starts every exchange at nonce 0) is answered with, or decoded by, the wrong nonce, and a request the encoder accepted fails to decode")
+				})
+				if uses {
+					nFn++
+				}
+			}
+		}
+		if nBad == 0 {
+			if nFn == 0 {
+				r.Unk("C15.12", "users of noise.CipherState", token.NoPos, "", "no function of the DNS registrar handles a Noise cipher state")
+			} else {
+				r.OK("C15.12", "no Noise cipher state is stored beyond its exchange", token.NoPos, fmt.Sprintf("%d function(s) handle cipher states; none stores one into a field, map or global", nFn))
+			}
+		}
+	}
+
+	// ---- C15.13 what the responder says is what the requester hears: every DNS response that parses is handed to the
+	// waiting reader, whatever its payload - the empty answer the responder sends for a result it cannot fit is how
+	// "cannot be represented" reaches the caller as an error (dropped, the caller waits forever)
+	r.Rule("C15.13", "the requester's receive loop queues the payload of every response that parses", 1)
+	if f := c.fn("C15.13", "pkg/registrars/dns-registrar/requester", "DNSPacketConn", "recvLoop"); f != nil {
+		var extract, read *ssa.Call
+		var queue []ssa.Instruction
+		eachInstr(f, func(in ssa.Instruction) {
+			call, ok := in.(*ssa.Call)
+			if !ok {
+				return
+			}
+			switch {
+			case calleeShort(&call.Call) == "dnsResponsePayload":
+				extract = call
+			case calleeShort(&call.Call) == "QueueIncoming":
+				queue = append(queue, in)
+			case call.Call.IsInvoke() && (call.Call.Method.Name() == "Read" || call.Call.Method.Name() == "ReadFrom"):
+				read = call
+			}
+		})
+		if extract == nil || read == nil || len(queue) == 0 {
+			r.Unk("C15.13", "recvLoop: read / payload extraction / queue", f.Pos(), fnName(f), "the receive loop was not recognised (Read, dnsResponsePayload, QueueIncoming)")
+		} else {
+			set := map[ssa.Instruction]bool{}
+			for _, q := range queue {
+				set[q] = true
+			}
+			skip, w := reach(f, extract, func(in ssa.Instruction) bool { return in == ssa.Instruction(read) || isReturn(in) }, inSet(set), nil)
+			if skip {
+				r.Bad("C15.13", "recvLoop: every parsed response is queued", extract.Pos(), fnName(f),
+					"after the payload of a response was extracted the loop can go on to the next read without queueing it: the responder's empty 'result does not fit' answer (its payload decodes to nil) never reaches the caller, which then waits forever instead of getting an error", r.blockPath(f, w)...)
+			} else {
+				r.OK("C15.13", "recvLoop: every parsed response is queued", extract.Pos(), "no path from dnsResponsePayload to the next Read avoids QueueIncoming")
+			}
+		}
+	}
+
 	r.Rule("C15.11", "the encoder's compression-pointer chains stay within the decoder's pointer limit", 1)
 	if f := c.fn("C15.11", "pkg/registrars/dns-registrar/dns", "messageBuilder", "WriteName"); f != nil {
 		limit := constIntOf(c.P, repoMod+"/pkg/registrars/dns-registrar/dns", "compressionPointerLimit")
